@@ -61,11 +61,18 @@ Proof. exact npt_taper_is_1_in_32. Qed.
 Print Assumptions C18_npt_taper_is_1_in_32.
 
 (* ... and a screw of taper angle t is a cone of half-angle t: the profile ordinate of the point at
-   distance rho from the axis and height z is rho + z tan t *)
+   distance rho from the axis and height z is rho + z tan t (outside the thin cone rho < - z tan t around
+   the axis, where the point is mirrored so that it stays inside the core) *)
 Theorem C18_screw_taper_cone : forall (s : ScrewSDF3 ROps) rho a z, (0 <= rho)%R ->
+  (0 <= rho + z * tan (s_taper s))%R ->
   vy (screw_map s (mkV3 (rho * cos a) (rho * sin a) z)) = (rho + z * tan (s_taper s))%R.
 Proof. exact screw_taper_cone. Qed.
 Print Assumptions C18_screw_taper_cone.
+
+(* the screw never hands its profile a point below the axis *)
+Theorem C18_screw_map_ordinate_nonneg : forall (s : ScrewSDF3 ROps) x y z, (0 <= vy (screw_map s (mkV3 x y z)))%R.
+Proof. exact screw_map_ordinate_nonneg. Qed.
+Print Assumptions C18_screw_map_ordinate_nonneg.
 
 (* unit conversion *)
 Theorem C18_to_mm_scales : forall t : ThreadParameters ROps, Units t <> "mm"%string ->
